@@ -3,11 +3,12 @@ import json, os
 from .. import core
 
 PROOF = "Props/C10.v"
-RUN_FILES = ["Run/DwarfRun.v", "Run/LineProgRun.v"]
+RUN_FILES = ["Run/DwarfRun.v", "Run/LineProgRun.v", "Run/DieCursorRun.v"]
 CORR_NAME = "address classifier (Model/Dwarf.v find_address vs. the real CodeAddressGenerator through the verif hook) and line-program rewriting (Model/LineProg.v over Model/Dwarf.v convert_address vs. the rows gimli reads back from the emitted .debug_line), on the tables of real modules"
 ASSUMPTIONS = [
     "Model/Dwarf.v is a hand-written model of CodeAddressGenerator::find_address / CodeAddressConverter::find_address / the rebase in ModuleDebugData::emit; the classifier is tied to the code by calling the hook on every instruction start, every range boundary and their neighbours in every module of the run and comparing inside Coq; the converter and the rebase are tied end-to-end by the DWARF oracle",
     "Model/LineProg.v is a hand-written model of the row loop of convert_line_program (begin / row / end decisions and offsets); it is tied to the code by replaying the input instruction stream of every emission over the converter model and comparing with the rows read back from the output, inside Coq",
+    "Model/DieCursor.v is a hand-written model of the explicit-stack DIE cursor (units.rs); it is tied to the code by asking the real cursor (hook) for its visiting order on gimli units of random shape and comparing inside Coq; that gimli's own conversion keeps the tree shape and that its reader cursor is pre-order are gimli's",
     "gimli (0.26, the version walrus links) writes the synthetic input DWARF and reads the output back; its reader/writer, the header / file-table conversion and the DIE plumbing of src/module/debug/dwarf.rs are not modelled: they are covered end-to-end only (every row and every subprogram of every emission is compared with an independent decode of the emitted code section)",
     "the instruction map and function ranges used by the converter are those of C11",
 ]
@@ -28,13 +29,29 @@ def correspondence(ctx, thorough, search, prop="C10", sub=""):
         for i, c in enumerate(codes):
             if c != 0:
                 meaning = {31: "classification of a probe address differs", 41: "the line-program model reports a conversion error where walrus emitted a program",
-                           42: "the rows read back from the emitted line program differ from the rows the model generates", 43: "the model violates gimli's writer assertions or leaves a sequence open"}.get(c, "?")
+                           42: "the rows read back from the emitted line program differ from the rows the model generates", 43: "the model violates gimli's writer assertions or leaves a sequence open", 44: "a subprogram (low_pc, high_pc) read back from the output differs from convert_subprogram of the model"}.get(c, "?")
                 dis.append({"code": c, "meaning": meaning, "file": os.path.basename(f), "case_index": i})
+    # the DIE cursor: random unit shapes through the real cursor (hook) vs Model/DieCursor.v
+    outc = out + "_diecur"
+    rc2, o2, _ = core.sh([core.vh(), "diecur", outc, str(ctx.seed + (5 if search else 0)), str(3000 if thorough else 400)], timeout=600)
+    metac = {}
+    if rc2 != 0:
+        dis.append({"error": "harness diecur failed", "out": o2[-800:]})
+    else:
+        metac = json.load(open(os.path.join(outc, "meta.json")))
+        resc, errc = core.coq_eval(outc)
+        for f, msg in errc.items():
+            dis.append({"file": f, "coq_error": msg[-400:]})
+        for f, codes in resc.items():
+            n_eval += len(codes)
+            for i, c in enumerate(codes):
+                if c != 0:
+                    dis.append({"code": c, "meaning": "the visiting order of the real DIE cursor differs from the model's", "file": os.path.basename(f), "case_index": i})
     ov = [{"class": v["class"], "what": v["what"], "input": {"module_hex": v.get("input")},
            "replay_cmd": "ModuleConfig::new().generate_dwarf(true).parse(<module_hex>), apply the variant named in `what`, emit_wasm, read .debug_line/.debug_info back with gimli and compare with the decoded code section"}
           for v in meta.get("oracle_violations", []) if prop in v.get("props", "").split()]
     cov = {"evaluations": meta["emissions"], "distinct_nontrivial": meta["emissions"], "traces_validated_against_impl": n_eval,
            "rule": "modules with functions of different sizes (reordered by the emitter), function counts 1/3/5/127/128/130 (count-LEB boundary), bodies around the 128-byte size-LEB boundary, dead code and nops that shrink bodies, a function whose first instruction is removed, plus body-rich generated modules; DWARF synthesised with gimli: v4 and v5, one row per instruction (line number = identity of the instruction), one subprogram per function with low_pc at the body start, one sequence per function, per TWO functions, or ONE sequence over all functions (with the first / last function of a sequence removed by GC), v5 rows naming file 0; each emitted unchanged, after GC, and after inserting marker instructions; every row and subprogram of the output compared; classifier probes = all instruction starts, range boundaries and neighbours",
-           "input_distribution": {k: meta[k] for k in ("inputs", "emissions", "rows_checked", "subprograms_checked", "panics", "configurations")},
+           "input_distribution": dict({k: meta[k] for k in ("inputs", "emissions", "rows_checked", "subprograms_checked", "panics", "configurations", "line_program_cases")}, die_cursor_units=metac),
            "exhaustive": False}
     return {"disagreements": dis, "oracle_violations": ov, "coverage": cov}
